@@ -44,6 +44,18 @@ class LogqpHooks(solverkit.StepHooks):
         if dotted == "torch.cat":
             dim = kwargs.get("dim", args[1] if len(args) > 1 else Fraction(0))
             return Cat("cat", list(args[0]), dim)
+        # linear algebra other than `g.pinverse()`: opaque, then normalised by `_normal_equations` where it is exactly
+        # the pseudo-inverse (full column rank is the property's premise)
+        if dotted in ("torch.bmm", "torch.matmul"):
+            return nf.bilinear("bmm", args[0], args[1])
+        if dotted == "torch.eye":
+            return nf.fn("eye", *[a for a in args if isinstance(a, (Rat, Fraction, int))])
+        if dotted in ("torch.linalg.solve", "torch.solve"):
+            return _normal_equations(nf.fn("solve", args[0], args[1]))
+        if dotted in ("torch.linalg.pinv", "torch.pinverse"):
+            return nf.fn("pinv", args[0])
+        if dotted in ("torch.linalg.lstsq",):
+            raise AnalysisError("torch.linalg.lstsq is not modelled", where=astq.loc(fi, node))
         if dotted == "torch.stack":
             dim = kwargs.get("dim", args[1] if len(args) > 1 else Fraction(0))
             return Cat("stack", list(args[0]), dim)
@@ -52,9 +64,44 @@ class LogqpHooks(solverkit.StepHooks):
     def tensor_method(self, interp, recv, name, args, kwargs, node, fi):
         if name == "size":
             return nf.fn("size", recv, *args) if args else (nf.fn("size", recv, 0), nf.fn("size", recv, 1))
+        if name == "transpose" and sorted(int(a) for a in args) in ([1, 2], [-2, -1]):
+            return nf.transpose(recv)            # the diffusion is (batch, d, m): axes (1, 2) are the matrix axes
+        if name == "squeeze" and (args and int(args[0]) == -1 or kwargs.get("dim") == -1):
+            return nf.rewrite(recv, lambda a, xs: xs[0] if a[0] == "col" else None)
         if name == "new_zeros":
             return Rat.const(0)
         return NotImplemented
+
+
+def _normal_equations(x):
+    """solve(bmm(G^T, G), col(mvp(G^T, v))) is col(mvp(pinv(G), v)) when G has full column rank; anything else (a
+    regularised Gram matrix, a different right-hand side) stays an opaque `solve`."""
+    def f(a, args):
+        if a[0] != "fn" or a[1] != "solve" or len(args) != 2:
+            return None
+        A, B = Rat.lift(args[0]), Rat.lift(args[1])
+        for cand in nf.all_atoms(A):
+            if cand[0] == "fn" and cand[1] == "G":
+                G = Rat.atom(cand)
+                gram = nf.bilinear("bmm", nf.transpose(G), G)
+                if not nf.equal(A, gram):
+                    continue
+                Bu = nf.rewrite(B, lambda b, xs: xs[0] if b[0] == "col" else None)
+                # B must be mvp(G^T, v) for some v: read v off the bilinear atoms
+                Bu = nf.reduce_sqrt(Bu)
+                out = Rat.const(0)
+                ok = True
+                for m, c in Bu.num.terms.items():
+                    bil = [(t, e) for t, e in m if t[0] == "bil" and t[1] == "mvp"]
+                    if len(bil) != 1 or bil[0][1] != 1 or not nf.equal(nf.key_to_rat(bil[0][0][2]), nf.transpose(G)):
+                        ok = False
+                        break
+                    coef = Rat(nf.Poly({tuple((t, e) for t, e in m if t != bil[0][0]): c}), Bu.den)
+                    out = out + coef * nf.bilinear("mvp", nf.fn("pinv", G), nf.key_to_rat(bil[0][0][3]))
+                if ok:
+                    return nf.wrap_axis(out, "col")
+        return None
+    return nf.rewrite(x, f)
 
 
 def make_logqp(model, nt):
